@@ -4,6 +4,9 @@
 -/
 import Driver.Render
 import Rtcp.Spec.Padding
+import Rtcp.Spec.Rules
+import Rtcp.Spec.Decode
+import Rtcp.Spec.Framing
 
 namespace Driver
 open Rtcp Rtcp.Impl
@@ -267,8 +270,55 @@ partial def Cfg.customsOk : Cfg → Bool
   | .compound ms => ms.all Cfg.customsOk
   | _ => true
 
-/-- `spec.*` / `exp.*` lines: filled in by Driver.SpecLines -/
-def specLines (_cfg : Cfg) : Out := #[]
+/-- the RFC image of a configuration (Spec layer) -/
+partial def Cfg.image : Cfg → Bytes
+  | .app b => Spec.appImage b
+  | .bye b => Spec.byeImage b
+  | .rr b => Spec.rrImage b
+  | .sr b => Spec.srImage b
+  | .sdes b => Spec.sdesImage b
+  | .unknown b => Spec.unknownImage b
+  | .fb k f p s m => Spec.fbImage k f p s m
+  | .pb inner => inner.image
+  | .compound ms => (ms.map Cfg.image).flatten
+  | .custom b => Spec.customImage b
+  | .chunk b => Spec.chunkImage b
+  | .item b => Spec.itemImage b
+  | .fci f => Spec.fciImage f
+
+/-- `get_padding()` as the configuration says -/
+partial def Cfg.effPadding : Cfg → UInt8
+  | .app b => b.padding | .bye b => b.padding | .rr b => b.padding | .sr b => b.padding
+  | .sdes b => b.padding | .unknown b => b.padding | .fb _ _ p _ _ => p
+  | .pb inner => inner.effPadding
+  | .compound ms => match ms.getLast? with | some m => m.effPadding | none => 0
+  | .custom b => b.padding
+  | _ => 0
+
+/-- the violated rules (Spec layer) -/
+partial def Cfg.violations : Cfg → List WriteError
+  | .app b => Spec.appRules b
+  | .bye b => Spec.byeRules b
+  | .rr b => Spec.rrRules b
+  | .sr b => Spec.srRules b
+  | .sdes b => Spec.sdesRules b
+  | .unknown b => Spec.unknownRules b
+  | .fb k f p _ _ => Spec.fbRules k f p
+  | .pb inner => inner.violations
+  | .compound ms =>
+    let n := ms.length
+    ((ms.zipIdx).map (fun (m, i) =>
+      m.violations ++ (if i + 1 != n && m.effPadding != 0 then [WriteError.nonLastCompoundPacketPadding] else []))).flatten
+  | .custom b => Spec.customRules b
+  | .chunk b => Spec.chunkRules b
+  | .item b => Spec.itemRules b
+  | .fci f => Spec.fciRules f
+
+/-- `spec.*` lines: the Spec layer's verdict on the configuration -/
+def specLines (cfg : Cfg) : Out :=
+  let v := cfg.violations
+  let o : Out := #[("spec.viol", if v.isEmpty then "-" else String.intercalate ";" (v.map renderWriteError))]
+  if v.isEmpty then o.push ("spec.image", hexOf cfg.image) else o
 
 def execBuild (b : Sexp) (bufs : List Sexp) : Out := Id.run do
   match evalBuilder b with
@@ -310,6 +360,45 @@ def execBuild (b : Sexp) (bufs : List Sexp) : Out := Id.run do
 
 def addPadding (p : Bytes) (n : Nat) : Bytes := Rtcp.Spec.addPadding p n
 
+def refItemStr (it : Spec.RefItem) : String :=
+  let priv :=
+    if it.type == 8 then
+      match it.privSplit with
+      | some (p, v) => s!"{p.length}:{hexOf p}:{hexOf v}"
+      | none => "bad"
+    else "-"
+  s!"{it.type}/{hexOf it.data}/{priv}"
+
+def refChunkStr (c : Spec.RefChunk) : String :=
+  s!"{c.ssrc}[" ++ String.intercalate "," (c.items.map refItemStr) ++ "]"
+
+/-- `spec.*` lines for parse requests: the reference decoders' verdict on the same bytes -/
+def specParseLines (k : PKind) (d : Bytes) : Out :=
+  match k with
+  | .nack => #[("spec.nack", listStr ((Spec.nackDecode d).map toString))]
+  | .fir => #[("spec.fir", listStr ((Spec.firDecode d).map (fun (s, q) => s!"{s}:{q}")))]
+  | .sli => #[("spec.sli", listStr ((Spec.sliDecode d).map (fun (a, b, c) => s!"{a}:{b}:{c}")))]
+  | .rpsi =>
+    match Spec.rpsiDecode d with
+    | some (pt, bits) => #[("spec.rpsi", s!"{pt};" ++ String.ofList (bits.map (fun b => if b then '1' else '0')))]
+    | none => #[("spec.rpsi", "none")]
+  | .sdes =>
+    -- framing as the parser sees it, then the reference tokeniser on the chunk region
+    let framed := decide (Spec.WellFramed 4 202 d)
+    let padding := (Spec.paddingOf d).getD 0
+    if !framed then #[("spec.tok", "unframed")]
+    else if d.length < 4 + padding.toNat then #[("spec.tok", "padding-overrun")]
+    else
+      let body := (d.take (d.length - padding.toNat)).drop 4
+      match Spec.refTok body with
+      | some cs => #[("spec.tok", "accept:" ++ String.intercalate ";" (cs.map refChunkStr))]
+      | none => #[("spec.tok", "reject")]
+  | .compound =>
+    match Spec.tiling d with
+    | some ts => #[("spec.tiles", if d.isEmpty then "none" else listStr (ts.map (fun t => toString t.length)))]
+    | none => #[("spec.tiles", "none")]
+  | _ => #[]
+
 def execRequest (line : String) : Out :=
   match parseSexp line with
   | some (.list [.atom "parse", kind, bytes]) =>
@@ -317,7 +406,7 @@ def execRequest (line : String) : Out :=
     | some k, some d =>
       match k with
       | .custom pt min => if customGrid pt min then dumpView "" k d else #[("bad-request", "custom-grid")]
-      | _ => dumpView "" k d
+      | _ => dumpView "" k d ++ specParseLines k d
     | _, _ => #[("bad-request", "parse-args")]
   | some (.list [.atom "pad", kind, bytes, n]) =>
     match parsePKind kind, bytes.toBytes?, n.toNat? with
@@ -336,7 +425,9 @@ def execRequest (line : String) : Out :=
         | .chunk _ | .item _ => #[]
         | _ =>
           let w := cfg.toWriter
-          #[("size", resW w.calcSize), ("getpad", optPad w.getPadding)]
+          let v := cfg.violations
+          #[("size", resW w.calcSize), ("getpad", optPad w.getPadding),
+            ("spec.viol", if v.isEmpty then "-" else String.intercalate ";" (v.map renderWriteError))]
   | _ => #[("bad-request", "syntax")]
 
 end Driver
